@@ -18,11 +18,11 @@ func init() { register(c05{}) }
 
 func (c05) ID() string       { return "C05" }
 func (c05) NewCase() any     { return &CheckCase{} }
-func (c05) Cases(c *Ctx) int { return c.Pick(400, 10000) }
+func (c05) Cases(c *Ctx) int { return c.Pick(1000, 15000) }
 
 func (c05) Gen(dt *drv.T, c *Ctx) any {
 	cs := &CheckCase{}
-	vis := chance(dt, "debugvis", 3)
+	vis := chance(dt, "debugvis", 10)
 	pc := ProgCfg{
 		Gen:      GenCfg{Depth: c.Pick(1, 2), RejectHeavy: chance(dt, "rejheavy", 40), SmallInts: true, Custom: !vis, CustomStmts: true},
 		MaxStmts: c.Pick(6, 8), Repeat: true, Cleanups: true, Skips: false, SigPct: 95,
